@@ -123,7 +123,7 @@ def group_corpus():
 
 
 def run(ctx):
-    nprog = ctx.scale(900, 2700)
+    nprog = ctx.scale(900, 1350)
     ev, nontrivial, dist, failures, tie_breaks, samples = S.run_differential(
         ctx, FEATS, nprog, check_fn="check_run", log=True, make_queries=make_queries, key_fn=key_fn, est_limits=(80, 1500), corpus=group_corpus(),
         nontrivial_fn=lambda prog, q, o: (contains(q, ALLSOL) or any(contains(b, ALLSOL) for _, b in prog)) and bool(o[1] or o[2] is not None))
